@@ -70,6 +70,12 @@ def build(rng, treelike):
                 continue
             motifs.append((sorted(vs), [(vs[a], vs[b]) for a, b in sh]))
     ids = rng.sample(range(100), len(motifs))
+    if rng.random() < 0.5:
+        # relabel to non-contiguous ids and insert the vertices in shuffled order (labels are not positions)
+        f = {v: 3 * v + 2 for v in G.nodes()}
+        ns = list(G.nodes()); rng.shuffle(ns)
+        G = nx.Graph(); G.add_nodes_from(f[v] for v in ns)
+        motifs = [(sorted(f[v] for v in vs), [(f[a], f[b]) for a, b in es]) for vs, es in motifs]
     for (vs, es), mid in zip(motifs, ids):
         lab = f"{len(vs)}-{vs}-{es}-{mid}"
         for a, b in es:
